@@ -28,7 +28,7 @@ CHECKS = {
     "C10": {
         "level": "exploration",
         "legs": [("ndf", "C10"), ("ndf", "C10"), ("ndf", "C10"), ("multi", "C10")],
-        "quick": {"runs": 12000, "wall": 70},
+        "quick": {"runs": 8000, "wall": 90},
         "thorough": {"runs": 400000, "wall": 1500},
     },
     "C03": {
@@ -40,7 +40,7 @@ CHECKS = {
     "C19": {
         "level": "fault_enumeration",
         "legs": [("reject", "C19")],
-        "quick": {"runs": 512, "wall": 60},
+        "quick": {"runs": 320, "wall": 100},
         "thorough": {"runs": 20000, "wall": 1800},
         "selftest_runs": 96,
     },
